@@ -245,6 +245,38 @@ func c40Judge(s *orcStep, res *run.Result, p c40Pred) {
 	}
 	res.Inc("compared_" + strings.ReplaceAll(variant, "-", "_"))
 	removed := map[string]string{} // old AbsID of removed tagged elements -> tag
+	// role of an element relative to the edit's target (part of the signature: a wrong
+	// prediction for the target itself, for something inside its subtree, for a connection
+	// attached to it, or for an unrelated element are different defects)
+	tObj, tEdge := -1, -1
+	if k.Edge {
+		tEdge = pre.findEdge(k)
+	} else {
+		tObj = pre.findObj(k.Obj)
+	}
+	objRole := func(i int) string {
+		switch {
+		case tObj >= 0 && i == tObj:
+			return "target"
+		case tObj >= 0 && pre.isDesc(i, tObj):
+			return "in-target-subtree"
+		}
+		return "unrelated"
+	}
+	edgeRole := func(i int) string {
+		e := pre.Edges[i]
+		switch {
+		case i == tEdge:
+			return "target"
+		case tObj >= 0 && (e.Src == tObj || e.Dst == tObj):
+			return "attached-to-target"
+		case tObj >= 0 && (pre.isDesc(e.Src, tObj) || pre.isDesc(e.Dst, tObj)):
+			return "in-target-subtree"
+		case tEdge >= 0 && e.Src == pre.Edges[tEdge].Src && e.Dst == pre.Edges[tEdge].Dst:
+			return "parallel-to-target"
+		}
+		return "unrelated"
+	}
 	check := func(what, tag, old, now string, survived bool) {
 		if !survived {
 			removed[old] = tag
@@ -272,7 +304,7 @@ func c40Judge(s *orcStep, res *run.Result, p c40Pred) {
 			viol("wrong-prediction", what+":"+how, fmt.Sprintf("%s %s: ID before %q, after %q, predicted %q (entry present: %v)", what, tag, old, now, want, predicted))
 		}
 	}
-	for _, po := range pre.Objs {
+	for i, po := range pre.Objs {
 		if po.Tag == "" {
 			res.Inc("untagged_not_compared")
 			continue
@@ -282,9 +314,9 @@ func c40Judge(s *orcStep, res *run.Result, p c40Pred) {
 		if ok {
 			now = post.Objs[j].AbsID
 		}
-		check("object", po.Tag, po.AbsID, now, ok)
+		check("object."+objRole(i), po.Tag, po.AbsID, now, ok)
 	}
-	for _, pe := range pre.Edges {
+	for i, pe := range pre.Edges {
 		if pe.Tag == "" {
 			res.Inc("untagged_not_compared")
 			continue
@@ -294,7 +326,7 @@ func c40Judge(s *orcStep, res *run.Result, p c40Pred) {
 		if ok {
 			now = post.Edges[j].AbsID
 		}
-		check("connection", pe.Tag, pe.AbsID, now, ok)
+		check("connection."+edgeRole(i), pe.Tag, pe.AbsID, now, ok)
 	}
 	// no prediction for a removed element — unless the same old ID also belongs to a
 	// survivor (cannot happen: IDs are unique per board)
